@@ -407,6 +407,7 @@ public:
       // for incremental mode blocks.
       ASMJIT_ASSERT(_search_start >= released_area_size);
       _search_start -= released_area_size;
+      _search_end = Support::max(_search_end, released_area_end);
       _largest_unused_area += released_area_size;
     }
     else {
@@ -442,6 +443,7 @@ public:
 
     if (Support::bool_and(is_incremental(), _search_start == shrunk_area_end)) {
       _search_start -= shrunk_area_size;
+      _search_end = Support::max(_search_end, shrunk_area_end);
       _largest_unused_area += shrunk_area_size;
     }
     else {
